@@ -89,7 +89,9 @@ static void check_header(const rp_pattern_t * rp, const char * pattern, const ch
     else if ((r3 ? 1 : 0) != acc) why = "SCPI_Match-differs";
     else if (acc) {
         for (i = 0; i < nnum; i++) if (nums[i] != (int32_t) rn[i]) { why = nums[i] == (int32_t) SENT ? "suffix-not-reported" : "suffix-value"; break; }
-        if (!why) for (i = nnum; i < RP_MAXKW + 2; i++) if (nums[i] != (int32_t) SENT) { why = "suffix-slot-beyond-keywords-written"; break; }
+        /* slots behind the last numeric keyword but inside the announced length are the caller's scratch space (the statement says nothing about
+         * them); slots behind the announced length must not be touched */
+        if (!why) for (i = RP_MAXKW; i < RP_MAXKW + 2; i++) if (nums[i] != (int32_t) SENT) { why = "suffix-slot-beyond-array-length-written"; break; }
         n_numbers += (unsigned long long) nnum;
     }
     /* a caller may ask for fewer suffixes than the pattern has: exact-size arrays of every shorter length
@@ -136,7 +138,7 @@ static void check_header(const rp_pattern_t * rp, const char * pattern, const ch
             else if (h_isbad >= 0) { why = "api/SCPI_IsCmd"; mc_viol("c03/api/SCPI_IsCmd", "pattern [%s] running for header [%s]: SCPI_IsCmd(\"%s\") = %d, reference %d", pattern, mc_e(h, (size_t) hl), h_isprobe, h_isgot, !h_isgot); why = NULL; }
             else {
                 for (i = 0; i < nnum; i++) if (h_nums[i] != (int32_t) rn[i]) { why = "api/suffix-value"; break; }
-                if (!why) for (i = nnum; i <= RP_MAXKW; i++) if (h_nums[i] != (int32_t) SENT) { why = "api/suffix-slot-beyond-keywords-written"; break; }
+                if (!why && h_nums[RP_MAXKW] != (int32_t) SENT) why = "api/suffix-slot-beyond-array-length-written";
             }
         } else {
             if (handler_runs) why = "api/handler-run-for-invalid-header";
